@@ -15,3 +15,4 @@ import UF.GroupI3
 import UF.GroupL
 import UF.GroupK
 import UF.GroupP1
+import UF.GroupP2b
